@@ -128,6 +128,16 @@ def prepare_examples(ctx, extreme_rain=True):
         if l.startswith("160 ") and len(l) >= 72 and l[70:72] == "99":
             sl[i] = l[:62] + "10" + l[64:67] + "0.3" + "06" + l[72:]
             break
+    # ... and soil 904: the same profile with the table at 2 dm (saturated layers inside the mineralisation depth)
+    for i, l in enumerate(sl):
+        if l.startswith("160 ") and len(l) >= 72 and l[70:72] == "06":
+            k = i
+            rows = []
+            while k < len(sl) and (sl[k].startswith("160 ")):
+                rows.append("904" + sl[k][3:]); k += 1
+            rows[0] = rows[0][:70] + "02" + rows[0][72:]
+            sl[k:k] = rows
+            break
     open(sp, "w").write("\n".join(sl))
     # a profile of only two 10-cm layers (every shipped soil has at least three): soil 902 of project ex1
     sl2 = open(sp).read().split("\n")
@@ -328,6 +338,7 @@ SWEEP_QUICK = (
     [(_A + " " + o, "EN") for o in ("ETpot=5", "CO2method=1", "CO2method=3", "PTF=1", "PTF=4", "PotMineralisation=1", "PotMineralisation=2",
                                      "CropParameterFormat=yml", "Fertilization=50", "AutoIrrigation=1", "AutoFertilization=1",
                                      "GroundWaterFrom=0", "LeachingDepth=10", "NDeposition=60")]
+    + [(_A.replace("soilId=075", "soilId=904"), "EN")]
     + [(_B + " " + o, "EN") for o in ("PTF=1", "PTF=3", "GroundWaterFrom=0", "GroundWaterFrom=1", "gwId=K5 PTF=1")]
     + [(_Z + " " + o, "DE") for o in ("AutoFertilization=0", "AutoHarvest=0", "AutoSowingHarvest=0", "AutoIrrigation=0", "Fertilization=50",
                                      "AutoSowingHarvest=0 AutoHarvest=0", "CropParameterFormat=yml")])
